@@ -716,7 +716,39 @@ def r18(ctx):
         raise AnalysisBroken('C09.R18: the length of a chain part in Message::create was not recognised')
 
 
+def r19(ctx):
+    ctx.rule('C09.R19', 'every stored part of a chain is followed by the attempt to join: in both ChainedMessage::storeLastData(index, '
+             'part) overloads every path to a return with a result that is not negative passes combineLastParts() - the join that '
+             'publishes a round is the one triggered by its last part, and a part that is identical to the stored one still '
+             'completes a round in which an earlier part changed', minimum=2)
+    fb = ctx.fb
+    n = 0
+    for fn in fb.fns('ebusd::ChainedMessage::storeLastData'):
+        if len(fn.params) != 2 or 'size_t' not in (fn.params[0].get('t') or ''):
+            continue
+        n += 1
+        ctx.touch(fn)
+        joins = set(c for c in fn.calls('combineLastParts'))
+        bad = []
+        for r in fn.all('ReturnStmt'):
+            val = fn.nodes[r].get('val')
+            if val is None:
+                continue
+            c_ = fn.val(val)
+            if c_ is not None and c_ < 0:
+                continue
+            if fn.nodes[fn.strip(val, casts=True)].get('callee', '').endswith('combineLastParts'):
+                continue
+            if fn.reaches_point(fn.entry, fn.pos(r), joins):
+                bad.append(fn.line_of(r))
+        ctx.ob('C09.R19', fn, fn.body, bool(joins) and not bad, 'storeLastData(index, %s)' % ('master' if 'Master' in fn.sig else 'slave'),
+               'every successful return passes combineLastParts(): %s%s' % (bool(joins) and not bad, '' if not bad else ' (return at line %s does not)' % bad))
+    if n < 2:
+        raise AnalysisBroken('C09.R19: the two storeLastData(index, part) overloads of ChainedMessage were not found')
+
+
 def run(ctx):
+    r19(ctx)
     r18(ctx)
     r16(ctx)
     r17(ctx)
